@@ -61,9 +61,13 @@ int main(void) {
   setvbuf(stdout, NULL, _IOFBF, 1 << 16);
   while ((len = getline(&line, &cap, stdin)) > 0) {
     while (len > 0 && (line[len - 1] == '\n' || line[len - 1] == '\r')) line[--len] = 0;
-    char* tok[300]; int nt = 0; char* p = line;
+    /* one token per blank-separated word; explicit buffer lists can have thousands of words: the array is sized from the line, and a line that would
+       not fit is refused loudly instead of being cut short */
+    static char** tok = NULL; static size_t tokcap = 0;
+    { size_t need = 4; for (char* q = line; *q; q++) if (*q == ' ') need++; if (need > tokcap) { tokcap = need * 2; tok = (char**) realloc(tok, tokcap * sizeof(char*)); } }
+    int nt = 0; char* p = line;
     char* rest = NULL;
-    while (*p && nt < 299) { while (*p == ' ') p++; if (!*p) break; tok[nt++] = p; if (line[0] == 'A' && nt == 5) { rest = p; break; } while (*p && *p != ' ') p++; if (*p) *p++ = 0; }
+    while (*p && (size_t) nt < tokcap - 1) { while (*p == ' ') p++; if (!*p) break; tok[nt++] = p; if (line[0] == 'A' && nt == 5) { rest = p; break; } while (*p && *p != ' ') p++; if (*p) *p++ = 0; }
     if (nt == 0) continue;
     if (tok[0][0] == 'B') {
       int t = 1;
